@@ -37,7 +37,7 @@ CHEAP = [
     ("ParticleSwarm", {}), ("ParticleSwarm", {"global_minimum_across_samplers": True}),
 ]
 COSTLY = [
-    ("CORS", {"max_samples": 40, "p": 0.5}), ("CORS", {"max_samples": 40, "p": 1.0}),
+    ("CORS", {"max_samples": 40, "p": 0.5}), ("CORS", {"max_samples": 40, "p": 1.0}), ("CORS", {"max_samples": 40, "verbose": True}),
     ("GaussianProcess", {"candidate_pool_size": 20, "optimize_restarts": 1, "acquisition": "mean"}),
     ("GaussianProcess", {"candidate_pool_size": 20, "optimize_restarts": 1, "acquisition": "expected_improvement"}),
     ("XGBoost", {"n_estimators": 3, "candidate_pool_size": 25}), ("RandomForest", {"n_estimators": 3, "candidate_pool_size": 25}),
